@@ -1802,6 +1802,9 @@ func (interp *Interpreter) cfg(root *node, sc *scope, importPath, pkgName string
 				err = n.cfgErrorf("cannot use _ as value")
 				break
 			}
+			if err = check.logicalExpr(n); err != nil {
+				break
+			}
 			n.start = n.child[0].start
 			n.child[0].tnext = n.child[1].start
 			setFNext(n.child[0], n)
@@ -1812,6 +1815,9 @@ func (interp *Interpreter) cfg(root *node, sc *scope, importPath, pkgName string
 		case lorExpr:
 			if isBlank(n.child[0]) || isBlank(n.child[1]) {
 				err = n.cfgErrorf("cannot use _ as value")
+				break
+			}
+			if err = check.logicalExpr(n); err != nil {
 				break
 			}
 			n.start = n.child[0].start
